@@ -765,7 +765,7 @@ package jobs
 //@   ghost loadedG *JobConfiguration = nil
 //@   ghost errG iface
 //@   requires s != nil && s.Store != nil
-//@   frame-assumed preserves Scheduler.*
+//@   preserves Scheduler.*
 //@   ensures [C14:the-title-is-the-one-of-the-stored-definition-of-that-job] errG == nil ==> loadedG != nil && result == loadedG.Title
 //@   ensures [C14:an-unreadable-definition-has-no-title] errG != nil ==> result == ""
 //@   at call LoadJob#1 before
@@ -797,7 +797,7 @@ package jobs
 //@   prop C14
 //@   requires s != nil && s.Store != nil
 //@   ensures [a-loaded-definition-is-never-nil] ret1 == nil ==> ret0 != nil
-//@   frame-assumed preserves Scheduler.*
+//@   preserves Scheduler.*
 //@   at call GetObject#1 before
 //@     assert [C14:job-definition-read-from-the-key-it-is-stored-under] collection == server.JobConfigIndex && id == jobID
 
